@@ -405,10 +405,15 @@ def cli_confirm(replay):
             if not ok:
                 reproduced = True
         os.unlink(path)
+    argl = replay.get('ARGS') or []
     for i, prog in enumerate(progs):
         exp = expects[i] if i < len(expects) else 'nocrash'
+        try:
+            extra = json.loads(argl[i]) if i < len(argl) else None
+        except Exception:
+            extra = None
         for profile in ('debug', 'release'):
-            r = run_jsonnet(prog, profile)
+            r = run_jsonnet(prog, profile, extra=extra)
             ok = True
             if r['kind'] in ('crash', 'timeout'):
                 ok = False
@@ -418,7 +423,7 @@ def cli_confirm(replay):
                 ok = r['kind'] == 'error'
             elif exp == 'nocrash':
                 ok = True
-            details.append({'program': prog, 'expect': exp, 'profile': profile, 'got': r, 'agrees_with_oracle': ok})
+            details.append({'program': prog, 'args': extra, 'expect': exp, 'profile': profile, 'got': r, 'agrees_with_oracle': ok})
             if not ok:
                 reproduced = True
     return reproduced, details
